@@ -44,6 +44,7 @@ class History:
         self.fired = []       # injected faults that actually fired
         self.got = []         # chunks the reader received
         self.surfaced = None  # (op index, exc object)
+        self.short_reads = 0
 
 
 def instrument(insp, name, faults, hist):
@@ -117,6 +118,17 @@ def run_session(data, case, faults, src_fault):
         try:
             if pers == 'file':
                 req = plan[op] if op < len(plan) else 4096
+                # short reads: the reader asks for more than the source
+                # returns (pipes, sockets); legal for any file-like source
+                ask = case.get('ask')
+                if ask == 'plus1':
+                    req += 1
+                elif ask == 'big':
+                    req = max(req, 65536)
+                elif ask == 'double':
+                    req = req * 2 + 3
+                if op < len(plan) and req > plan[op]:
+                    hist.short_reads += 1
                 chunk = w.read(req)
                 if not chunk:
                     hist.got.append(chunk)
@@ -327,7 +339,9 @@ class C06(Check):
                                   crng.random() < 0.8 else [])))
         order = list(F.FORMATS)
         st('order').shuffle(order)
-        case = {'content': rec, 'pers': pers, 'fam': fam, 'rle': r,
+        ask = core.weighted(crng, [(None, 5), ('plus1', 1), ('big', 2),
+                                   ('double', 1)]) if pers == 'file' else None
+        case = {'content': rec, 'pers': pers, 'fam': fam, 'rle': r, 'ask': ask,
                 'expected': expected, 'allowed': allowed, 'order': order,
                 'sweep': sweep, 'faults': [], 'src_fault': None}
         if not sweep:
@@ -423,6 +437,8 @@ class C06(Check):
                 self.bump('probes', 'fault_in_non_expected_swallowed')
         if src.raised is not None:
             self.bump('faults', 'source_raises')
+        if hist.short_reads:
+            self.bump('faults', 'short_read', hist.short_reads)
         if any(len(c) == 0 for c in src.delivered[:-1]):
             self.bump('faults', 'empty_chunk')
         exp = case.get('expected')
@@ -436,7 +452,7 @@ class C06(Check):
                 self.bump('probes', 'expected_mismatch_cutoff')
                 cutkind = 'mismatch'
         log.add('session', [(f['insp'], f['at'], f['phase']) for f in faults],
-                src_fault, len(hist.got), src.reads,
+                src_fault, case.get('ask'), len(hist.got), src.reads,
                 None if hist.surfaced is None else
                 (hist.surfaced[0], type(hist.surfaced[1]).__name__),
                 sorted((n, r[0]) for n, r in hist.raised.items()),
@@ -477,6 +493,10 @@ class C06(Check):
         if case.get('allowed'):
             c = copy.deepcopy(case)
             c['allowed'] = None
+            yield c
+        if case.get('ask'):
+            c = copy.deepcopy(case)
+            c['ask'] = None
             yield c
         sizes = streams.expand(case['rle'])
         tot = sum(sizes)
